@@ -466,6 +466,20 @@ pub fn generate_c12<W: Write>(c: &mut Cases<W>, rng: &mut Rng, thorough: bool) {
                 let free = run_history_ctl(&file, &ops, ctl0.clone());
                 let (nreads, nseeks) = (ctl0.reads.get(), ctl0.seeks.get());
                 let read_load = ctl0.read_load.borrow().clone();
+                // no component fails, no error: the same history over a source that never fails but serves one
+                // byte per read call, or interrupts every other call, returns the same results
+                for mode in [0u8, 1] {
+                    let ctl_q = Ctl::new();
+                    *ctl_q.rng.borrow_mut() = Some(Rng::new(i as u64 + 1));
+                    ctl_q.mode.set(mode);
+                    let quiet = run_history_ctl(&file, &ops, ctl_q.clone());
+                    c.bump("quiet_runs_over_short_reads", 1);
+                    if quiet != free {
+                        println!("DIRECT fail a source that never fails (it serves {}) makes the history end with '{}' (whole reads: '{}'){}",
+                                 if mode == 0 { "one byte per read call" } else { "every other call interrupted" }, quiet.1, free.1,
+                                 if quiet.0 != free.0 { ", with other results" } else { "" });
+                    }
+                }
                 c.begin("rfault");
                 c.line("prop C12");
                 c.line(&cfg.line());
